@@ -19,8 +19,9 @@ def sh(cmd, cwd=None, env=None, timeout=3600):
 def main():
     pid, k = sys.argv[1], sys.argv[2]
     checks = sys.argv[3:]
-    src = f"/tmp/seed/out/{pid}"
-    wt = f"/tmp/seed/{pid}"
+    src = os.environ.get("SEED_SRC", "/tmp/seed/out") + f"/{pid}"
+    wt = os.environ.get("SEED_WT", "/tmp/seed") + f"/{pid}"
+    koff = int(os.environ.get("SEED_KOFF", "0"))
     patch = f"{src}/patch{k}.diff"
     demo = f"{src}/demo{k}.rs"
     env = {"CARGO_TARGET_DIR": f"{wt}/target", "CARGO_NET_OFFLINE": "true"}
@@ -79,7 +80,7 @@ def main():
     res["machinery_errors"] = [c for c, v in caught.items() if v["exit"] not in (0, 1)]
     ok = res["demo_clean_passes"] and res["suite_passes_with_patch"] and res["demo_fails_with_patch"]
     res["confirmed"] = ok
-    out_dir = f"/verif/seeded/{pid}-{k}"
+    out_dir = f"/verif/seeded/{pid}-{int(k) + koff}"
     if ok:
         os.makedirs(out_dir, exist_ok=True)
         shutil.copy("/tmp/seed/current.patch", f"{out_dir}/patch.diff")
